@@ -83,6 +83,65 @@ def fuzz_shard(task):
     return part
 
 
+# ---- evaluate everything that parses: short token strings over a call/macro/member alphabet ----
+EVAL_TOKENS = ["has", "dyn", "size", "int", "x", "m", "1", '"a"', "[", "]", "(", ")", "{", "}", ".", ",", ":", "map", "min", "all", "-", "!", "?", "+", "in", "f"]
+
+
+def evalfuzz_shard(task):
+    rk, n, first = task
+    import celpy
+    import celpy.celtypes as ct
+    part = runner.Part()
+    env = celrun.make_env(rk)
+    acts = [{}, {"x": ct.ListType([ct.IntType(1), ct.IntType(2)]), "m": ct.MapType({ct.StringType("f"): ct.IntType(1)})}]
+    cnt = parsed = 0
+    for k in range(0, n):
+        for combo in itertools.product(EVAL_TOKENS, repeat=k):
+            toks = (first,) + combo
+            text = " ".join(toks)
+            cnt += 1
+            try:
+                ast = env.compile(text)
+            except celpy.CELParseError:
+                part.case(nontrivial=False)
+                continue
+            except RecursionError:
+                ast = None
+            except Exception as ex:  # noqa
+                part.case()
+                part.outcome("X")
+                part.violation("other-exception", f"evalfuzz:X:{rk}:compile:{type(ex).__name__}:{shape(toks)}", {"expr": text, "runner": rk, "activation": "empty", "package": None, "bindings_src": None, "stage": "compile"},
+                               f"runner {rk}: compile({text!r}) raised {type(ex).__name__}")
+                continue
+            parsed += 1
+            try:
+                prog = env.program(ast)
+            except Exception as ex:  # noqa
+                part.case()
+                part.outcome("X")
+                o = outcome.of_exception(ex, "program")
+                if o[0] == "X":
+                    part.violation("other-exception", f"evalfuzz:X:{rk}:program:{type(ex).__name__}:{shape(toks)}", {"expr": text, "runner": rk, "activation": "empty", "package": None, "bindings_src": None, "stage": "program"},
+                                   f"runner {rk}: program({text!r}) raised {type(ex).__name__}: {str(ex)[:80]}")
+                continue
+            for ai, b in enumerate(acts):
+                part.case()
+                o, raw = outcome.run(lambda: prog.evaluate(dict(b))), None
+                part.outcome(outcome.label(o))
+                if o[0] == "X":
+                    part.violation("other-exception", f"evalfuzz:X:{rk}:evaluate:{o[2]}:{shape(toks)}", {"expr": text, "runner": rk, "activation": ["empty", "xm"][ai], "package": None, "bindings_src": None, "stage": "evaluate"},
+                                   f"runner {rk}: {text!r} under activation {['empty', 'x=[1,2], m={f:1}'][ai]}: {outcome.short(o)}")
+    part.space(f"evaluate:token-strings:{rk}", 0, cnt, bound=f"<= {n} tokens over {len(EVAL_TOKENS)} tokens; every string that parses is built and evaluated")
+    part.extra[f"evalfuzz_parsed_{rk}"] += parsed
+    return part
+
+
+def shape(toks):
+    """root-cause class of a token string: the function / macro names and bracket structure"""
+    keep = [t for t in toks if t in ("has", "dyn", "size", "int", "map", "min", "all", "in", "?", "{", "[", ".", "f")]
+    return "".join(keep)[:24] or "plain"
+
+
 def edits(text):
     toks = [t for t in _TOK.findall(text)]
     out = []
@@ -123,6 +182,10 @@ def run(ctx):
     ctx.part.spaces["compile:token-strings"]["cardinality"] = sum(len(TOKENS) ** k for k in range(0, n + 1))
     nscen = len(corpus.scenarios())
     ctx.run_shards(edit_shard, runner.shards(nscen, 32))
+    ne = 5 if ctx.thorough else 4
+    for rk in ("I", "C"):
+        ctx.run_shards(evalfuzz_shard, [(rk, ne, t) for t in EVAL_TOKENS])
+        ctx.part.spaces[f"evaluate:token-strings:{rk}"]["cardinality"] = sum(len(EVAL_TOKENS) ** k for k in range(1, ne + 1))
     # (b) + (c)
     part = ctx.part
     for k in ("I", "C"):
